@@ -107,6 +107,18 @@ LOOKALIKE_SOURCES = (
     'File "x.py", line 3, in f',
     'Traceback (most recent call last):', 'ValueError: x')
 
+# Text that means something to the mechanisms a renderer / scanner may be built from - str.format ('{', '}'),
+# %-formatting, regular-expression replacement templates ('\1', '\g<0>'), string.Template ('$x') - placed in every
+# free-text position of the grammar: the source line (dict / set literals, f-strings, format calls are everyday source
+# lines), the path, the message.  (Function names are identifiers or <...> names: no such characters.)
+META_SOURCES = (
+    'counts = {}', 'return {{x}}', 'cfg = {"retries": n, "delay": d}', 'msg = f"{user} failed {n} times"',
+    'opts = {0: run(), 1: stop()}', 'd = {', '}', 'log("{!r:>10}".format(v))',
+    'print("%s: %d%%" % (a, b))', 'x = "%(name)s" % d', 'pct = 100 % n', 'return "%"',
+    's = re.sub(r"(\\w+)\\s*$", r"\\1\\g<0>", s)', 'p = "C:\\new\\table"', 'os.environ["$HOME"] = "${x} $1"')
+META_PATHS = ('/a/{x}/{0}{}.py', '/a/%s/100%/%(n)s.py', 'C:\\1\\g<0>\\$x\\${y}.py')
+META_MESSAGES = ('{}', '{0} {x} {{y}} }{', '%s %(a)s 100% %d', '\\1 \\g<0> \\', '$x ${y} $$', 'k: {"a": 1}\n{\n}')
+
 # Texts in which the interpreter summarises recursion: an entry printed three times followed by
 # "  [Previous line repeated N more times]".  On the tree as of this writing ParsedException.from_string does not know
 # that line (genuine defect, fixes/C16-8-parse-repeat-summary-line.patch): the units are enumerated only when this is
@@ -127,8 +139,21 @@ MEDIUM_MENU = tuple((p, LINES[(i + j + k) % 2], f, s) for i, p in enumerate(PATH
 LOOK_MENU = tuple((PATHS[i % len(PATHS)], LINES[i % len(LINES)], FUNCS[i % len(FUNCS)], s)
                   for i, s in enumerate(LOOKALIKE_SOURCES))
 LOOK_ALL = tuple(itertools.product(PATHS, LINES, FUNCS, LOOKALIKE_SOURCES))
+# frames with a META source line and / or a META path: all of them in the 1-frame texts, one surrounding each (META_MENU:
+# every meta source line once, every meta path once with each kind of ordinary source line) in the longer texts
+_ALL_PATHS = PATHS + META_PATHS
+META_ALL = tuple(fr for fr in itertools.product(_ALL_PATHS, LINES, FUNCS, SOURCES + META_SOURCES)
+                 if fr[0] in META_PATHS or fr[3] in META_SOURCES)
+META_MENU = (tuple((_ALL_PATHS[i % len(_ALL_PATHS)], LINES[i % len(LINES)], FUNCS[i % len(FUNCS)], s)
+                   for i, s in enumerate(META_SOURCES)) +
+             tuple((p, LINES[(i + j) % len(LINES)], FUNCS[(i + j) % len(FUNCS)], s)
+                   for i, p in enumerate(META_PATHS) for j, s in enumerate(SOURCES)))
 MENUS = {'full': FRAME_MENU, 'medium': MEDIUM_MENU, 'small': SMALL_MENU, 'lookm': LOOK_MENU,
-         'look1': LOOK_ALL, 'look2': LOOK_MENU + FRAME_MENU, 'look3': LOOK_MENU + SMALL_MENU}
+         'look1': LOOK_ALL, 'look2': LOOK_MENU + FRAME_MENU, 'look3': LOOK_MENU + SMALL_MENU,
+         'metam': META_MENU, 'meta1': META_ALL, 'meta2': META_MENU + SMALL_MENU, 'meta3': META_MENU + SMALL_MENU}
+# entries that occur in a summarised run: the reduced menu and a few metacharacter frames (braces, %, backslashes, path)
+REP_MENU = SMALL_MENU + (META_MENU[0], META_MENU[3], META_MENU[8], META_MENU[12], META_MENU[len(META_SOURCES) + 1])
+SPECIAL = {'look': frozenset(LOOK_MENU), 'meta': frozenset(META_MENU)}
 EXC_MENU = tuple(itertools.product(EXC_TYPES, MESSAGES))                     # 21
 # Messages containing a line boundary of str.splitlines other than "\n" (the interpreter writes them as they are): on
 # the tree as of this writing from_string cuts the message there and to_string() joins with "\n" - defect candidate,
@@ -138,6 +163,7 @@ BOUNDARY_MESSAGES = ('a\rb', 'a\x0bb', 'a\x0cb', 'a\x1cb', 'a\x1eb', 'a\x85b', '
 if SPLITLINES_BOUNDARY_MESSAGES:
     EXTRA_MESSAGES += BOUNDARY_MESSAGES
 XEXC_MENU = tuple(itertools.product(EXC_TYPES, EXTRA_MESSAGES))
+MEXC_MENU = tuple(itertools.product(EXC_TYPES, META_MESSAGES))
 
 
 def _exc_class(name):
@@ -166,9 +192,10 @@ _PIECES = {}
 
 def pieces():
     if not _PIECES:
-        _PIECES['f'] = {fr: frame_text(fr) for fr in FRAME_MENU + LOOK_ALL}
+        _PIECES['f'] = {fr: frame_text(fr) for fr in FRAME_MENU + LOOK_ALL + META_ALL}
+        assert set(META_MENU) <= set(META_ALL) and not set(META_ALL) & set(FRAME_MENU)
         assert set(MEDIUM_MENU) <= set(FRAME_MENU) and set(SMALL_MENU) <= set(FRAME_MENU)
-        _PIECES['e'] = {ex: exc_text(ex) for ex in EXC_MENU + XEXC_MENU}
+        _PIECES['e'] = {ex: exc_text(ex) for ex in EXC_MENU + XEXC_MENU + MEXC_MENU}
         # harness self-check: the pieces concatenate to what the interpreter prints for a whole traceback
         fr = [FRAME_MENU[5], FRAME_MENU[0], FRAME_MENU[127]]
         ss = traceback.StackSummary.from_list([traceback.FrameSummary(p, l, f, line=s) for p, l, f, s in fr])
@@ -302,7 +329,19 @@ def text_units(tier):
     else:
         units += [('medium', 3, (i,)) for i in range(len(MEDIUM_MENU))]
         units += [('small', 4, (i,)) for i in range(len(SMALL_MENU))]
-    return units + look_units(tier) + (repeat_units(tier) if REPEAT_SUMMARY_TEXTS else []) + message_units(tier)
+    return (units + look_units(tier) + meta_units(tier) + (repeat_units(tier) if REPEAT_SUMMARY_TEXTS else []) +
+            message_units(tier))
+
+
+def meta_units(tier):
+    """Texts in which at least one frame has a META source line or path (and, in the text_shard variants, every META
+    message): 1 frame with every surrounding; 2 frames: each META_MENU frame before and after every frame of META_MENU +
+    the reduced menu; thorough: 3 frames over the same menu."""
+    units = [('meta1', 1, ())]
+    units += [('meta2', 2, (i,)) for i in range(len(META_MENU))]
+    if tier != 'quick':
+        units += [('meta3', 3, (i,)) for i in range(len(MENUS['meta3']))]
+    return units
 
 
 def message_units(tier):
@@ -320,14 +359,14 @@ def message_units(tier):
 
 def repeat_units(tier):
     """('rep', N, index of the repeated entry in the reduced menu)."""
-    return [('rep', n, (i,)) for n in REPEAT_COUNTS for i in range(len(SMALL_MENU))]
+    return [('rep', n, (i,)) for n in REPEAT_COUNTS for i in range(len(REP_MENU))]
 
 
 def repeat_texts(unit):
-    """(frames, repeats) for texts with a run of entry X = SMALL_MENU[i] summarised with N: optionally one other entry
+    """(frames, repeats) for texts with a run of entry X = REP_MENU[i] summarised with N: optionally one other entry
     before and/or after the run, or a second summarised run of another entry after it."""
     _, n, (i,) = unit
-    x = SMALL_MENU[i]
+    x = REP_MENU[i]
     others = [None] + [fr for fr in SMALL_MENU if fr != x]
     for before in others:
         for after in others:
@@ -354,10 +393,10 @@ def look_units(tier):
 def look_frames(unit):
     menu_name, n, prefix = unit
     menu = MENUS[menu_name]
-    looks = set(LOOK_MENU)
-    if menu_name == 'look1':
+    looks = SPECIAL[menu_name[:4]]
+    if menu_name[4:] == '1':
         return ([a] for a in menu)
-    if menu_name == 'look2':
+    if menu_name[4:] == '2':
         a = menu[prefix[0]]
         return itertools.chain(([a, b] for b in menu), ([b, a] for b in menu if b != a))
     head = [menu[i] for i in prefix]
@@ -369,7 +408,7 @@ def look_frames(unit):
 
 def unit_frames(unit):
     menu_name, n, prefix = unit
-    if menu_name.startswith('look'):
+    if menu_name[:4] in SPECIAL:
         return look_frames(unit)
     menu = MENUS[menu_name]
     if n == 2 and prefix:
@@ -389,6 +428,8 @@ def text_shard(unit):
     if unit[0].startswith('msg:'):
         unit = (unit[0][4:],) + tuple(unit[1:])
         variants = [(ex, False) for ex in XEXC_MENU] + [(ex, True) for ex in EXC_MENU + XEXC_MENU]
+    elif unit[0].startswith('meta'):
+        variants += [(ex, False) for ex in MEXC_MENU] + [(ex, True) for ex in MEXC_MENU]
     for frames in (repeat_texts(unit) if unit[0] == 'rep' else unit_frames(unit)):
         repeats = None
         if unit[0] == 'rep':
@@ -413,7 +454,7 @@ def text_shard(unit):
 
 
 def marker_units(tier):
-    look = [('look1', 1, ())] + [('look3', 2, (i,)) for i in range(len(MENUS['look3']))]
+    look = [('look1', 1, ())] + [('look3', 2, (i,)) for i in range(len(MENUS['look3']))] + [('metam', 1, ())]
     if tier == 'quick':
         return [('small', 1, ()), ('small', 2, ()), ('small', 3, ())] + look
     return ([('full', 1, ())] + [('full', 2, (i,)) for i in range(0, len(FRAME_MENU), 8)] + [('small', 3, ())] + look +
@@ -480,7 +521,7 @@ RAISE = {
 # filename, several args, BaseException subclasses, a class that claims module __main__, a class defined in a function
 # ('<locals>' in its qualified name), non-ASCII text, __str__ returning '' / a non-string.
 EXTRA_EXC_KINDS = ('oserror', 'tupleargs', 'keyboardinterrupt', 'systemexit', 'main_class', 'local_class', 'nonascii',
-                   'str_empty', 'str_nonstr')
+                   'str_empty', 'str_nonstr', 'metachars')
 # Exception classes whose __module__ is None, or a module called "exceptions" / "__builtin__" (the Python 2 names of
 # builtins): on the tree as of this writing ExceptionInfo prints "None.X: m" (interpreter: "<unknown>.X: m") and
 # "X: m" (interpreter: "exceptions.X: m") - defect candidate, fixes/C16-9-type-module-prefix.patch.  Set to True once
@@ -496,6 +537,8 @@ RAISE.update({
     'local_class': "raise Local('l')",
     'nonascii': "raise ValueError('\\u00e9: \\u20ac')",
     'str_empty': "raise StrEmpty('x')",
+    # the raising source line and the message carry format / template / regex-replacement metacharacters
+    'metachars': "raise ValueError('{} {0} {{x}} }{ %s %(a)s 100% \\\\1 \\\\g<0> ${y}')",
     'str_nonstr': "raise StrInt('x')",
     'module_none': "raise NoModule('m')",
     'module_exceptions': "raise LegacyModule('m')",
@@ -507,10 +550,11 @@ TYPE_SHAPE = {'msg': 'builtin', 'empty': 'builtin', 'keyerror': 'builtin', 'mult
               'custom': 'module_class', 'nested': 'nested_class', 'assert': 'builtin', 'badstr': 'module_class'}
 MSG_SHAPE.update({'oserror': 'one_line', 'tupleargs': 'one_line', 'keyboardinterrupt': 'empty_message',
                   'systemexit': 'one_line', 'main_class': 'one_line', 'local_class': 'one_line', 'nonascii': 'one_line',
-                  'str_empty': 'empty_message', 'str_nonstr': 'str_raises', 'module_none': 'one_line',
+                  'str_empty': 'empty_message', 'str_nonstr': 'str_raises', 'module_none': 'one_line', 'metachars': 'one_line',
                   'module_exceptions': 'one_line', 'module_py2_builtin': 'one_line'})
 TYPE_SHAPE.update({'oserror': 'builtin', 'tupleargs': 'builtin', 'keyboardinterrupt': 'builtin', 'systemexit': 'builtin',
                    'main_class': 'main_class', 'local_class': 'local_class', 'nonascii': 'builtin',
+                   'metachars': 'builtin',
                    'str_empty': 'module_class', 'str_nonstr': 'module_class', 'module_none': 'module_none',
                    'module_exceptions': 'module_named_like_py2_builtins',
                    'module_py2_builtin': 'module_named_like_py2_builtins'})
@@ -1465,6 +1509,14 @@ def run(ctx):
                       % (len(MEDIUM_MENU), len(SMALL_MENU))),
                   'paths': PATHS, 'linenos': LINES, 'functions': FUNCS, 'source_lines': SOURCES,
                   'lookalike_source_lines': LOOKALIKE_SOURCES,
+                  'metacharacter_source_lines': META_SOURCES, 'metacharacter_paths': META_PATHS,
+                  'metacharacter_messages': META_MESSAGES,
+                  'metacharacter_frames': 'texts with at least one frame that has a metacharacter source line or path, '
+                                          'below every message of the menu and every metacharacter message (these also '
+                                          'as UTF-8 bytes): 1 frame with every path/line/function/source line (%d); 2 '
+                                          'frames: each of %d such frames before and after each other and every entry '
+                                          'of the reduced menu%s' % (len(META_ALL), len(META_MENU), '' if quick else
+                                                                     '; 3 frames over these + the reduced menu'),
                   'lookalike_frames': 'texts with at least one frame whose source line is a lookalike: 1 frame with '
                                       'every path/line/function; 2 frames: each lookalike frame before and after every '
                                       'entry of the full menu and every other lookalike; %s frames over the %d '
@@ -1520,7 +1572,7 @@ def run(ctx):
                             'exception_kinds': ('msg',)},
     }
     cov['bounds']['texts']['repeat_summary_lines'] = (
-        'entry x3 + "[Previous line repeated N more times]", N in %s, reduced menu, optionally one other entry before / '
+        'entry x3 + "[Previous line repeated N more times]", N in %s, reduced menu + 5 metacharacter frames, optionally one other entry before / '
         'after or a second summarised run' % (REPEAT_COUNTS,) if REPEAT_SUMMARY_TEXTS else
         'NOT explored (switched off: known defect, see REPEAT_SUMMARY_TEXTS)')
     ctx.assumptions += [
